@@ -53,10 +53,16 @@ def build(spec):
 
 def _build(spec):
     n = spec['n']
+    ids = list(range(n))
+    if spec.get('sub'):
+        # the shuffled dataset is a selection out of a larger one
+        ids = [1000] + ids + [1001]
     if spec['source'] == 'dict':
-        src = lazy_dataset.new({'k%d' % i: {'src': i} for i in range(n)})
+        src = lazy_dataset.new({'k%d' % i: {'src': i} for i in ids})
     else:
-        src = lazy_dataset.new([{'src': i} for i in range(n)])
+        src = lazy_dataset.new([{'src': i} for i in ids])
+    if spec.get('sub'):
+        src = src[1:-1] if spec['seed'] % 2 else src[list(range(1, n + 1))]
     rng = np.random.RandomState(spec['seed']) if spec['rng'] == 'explicit' else None
     kind = spec['kind']
     if kind == 'once':
@@ -90,6 +96,11 @@ def _build(spec):
         ds = ds.prefetch(1, 1 + spec['seed'] % 2, backend='thread')
     elif wrap == 'catch':
         ds = ds.catch()
+    elif wrap == 'copy_only':
+        # every iterator runs over a copy of the dataset (once or twice removed)
+        ds = ds.copy()
+        if spec['seed'] % 3 == 0:
+            ds = ds.copy()
     return ds
 
 
@@ -124,6 +135,8 @@ def gen_spec(rng):
             spec['size'] = rng.randrange(1, n + 1)
     if spec['source'] == 'dict' and spec['kind'] != 'tile' and rng.random() < 0.4:
         spec['items'] = True
+    if n > 0 and kind != 'choice' and rng.random() < 0.2:
+        spec['sub'] = True
     if n > 0 and rng.random() < 0.2:
         spec['wrap'] = rng.choice(['zip_self', 'intersperse_self'])
     elif kind == 'reshuffle' and not spec.get('items') and rng.random() < 0.5:
@@ -131,6 +144,8 @@ def gen_spec(rng):
         # iterators in flight are independent of each other there; and a copy()
         # of the dataset iterated next to the original
         spec['wrap'] = rng.choice(['prefetch_pool', 'prefetch_alias1', 'catch', 'copy_pair'])
+    elif n > 0 and kind in ('local', 'once', 'tile', 'reshuffle') and rng.random() < 0.12:
+        spec['wrap'] = 'copy_only'
     elif n > 0 and n <= 12 and not spec.get('items') and rng.random() < 0.08:
         # any shuffle behind the single-thread prefetch (timed waits of the
         # hand-over queue may fire at any moment under the scheduler)
